@@ -153,6 +153,38 @@ def run(chk):
     chk.cov["distinct_nontrivial"] += len(set(ecases))
 
 
+    # unary minus runs through the compiler and the VM: -x, --x, ---x, -(-x) must equal the operator applied
+    # that many times (an error once any application is an error)
+    vals = num + oth[:12]
+    lvl1 = run_impl(["unop neg %s" % v for _, v in vals], "debug")
+    lvl2 = run_impl(["unop neg %s" % (r if not r.startswith("E") else "Ediv") for r in lvl1], "debug")
+    lvl3 = run_impl(["unop neg %s" % (r if not r.startswith("E") else "Ediv") for r in lvl2], "debug")
+    ncases, nwant = [], []
+    for k, (t, v) in enumerate(vals):
+        chain = [lvl1[k]]
+        chain.append(lvl1[k] if lvl1[k].startswith("E") else lvl2[k])
+        chain.append(chain[1] if chain[1].startswith("E") else lvl3[k])
+        l = literal_of(t, v)
+        forms = [("-x", 1), ("--x", 2), ("---x", 3), ("-(-x)", 2), ("- - x", 2), ("-(--x)", 3), ("(--x)", 2)]
+        for src, n in forms:
+            ncases.append("eval %s %s" % (vs(src), vmap([("x", v)]))); nwant.append((chain[n - 1], src, v))
+            if l is not None:
+                ls = src.replace("x", l if l.startswith("(") else "(" + l + ")")
+                ncases.append("eval %s %s" % (vs(ls), vmap([]))); nwant.append((chain[n - 1], ls, v))
+    for prof in profiles:
+        nres = run_impl(ncases, prof)
+        for c, r, (w, src, v) in zip(ncases, nres, nwant):
+            w2 = ("ERR " + w) if w.startswith("E") else ("OK " + w)
+            ok = r == w2 or (w.startswith("E") and r.startswith("ERR "))
+            if not ok:
+                chk.violation("a run of unary minus signs does not equal the operator applied that many times "
+                              "(an error must stay an error)", dict(case=c, source=src, operand=v, profile=prof, got=r,
+                                                                    operator_level=w2))
+    chk.stream("unary minus runs (-x, --x, ---x, -(-x)) with bound and literal operands x {debug,release}",
+               2 * len(ncases), len(set(ncases)), exhaustive=True)
+    chk.cov["distinct_nontrivial"] += len(set(ncases))
+
+
 def replay(chk, rep):
     if not builds_or_die(chk, ("debug", "release")):
         return
@@ -168,5 +200,8 @@ def replay(chk, rep):
         if bad:
             chk.violation(rep.get("what", "replayed"), rep)
     elif "operator_level" in rep:
-        if r != rep["operator_level"] or rr != rep["operator_level"]:
-            chk.violation(rep.get("what", "replayed"), rep)
+        w = rep["operator_level"]
+        for x in (r, rr):
+            if not (x == w or (w.startswith("ERR ") and x.startswith("ERR "))):
+                chk.violation(rep.get("what", "replayed"), rep)
+                break
